@@ -29,6 +29,34 @@ FOLLOWING = (r"^std::fs::File::create$", r"^std::fs::set_permissions$", r"^std::
 SANITISER = "extraction_path"
 
 
+def flag_sources(body, local, depth=0):
+    """What a bool local assigned on several paths is made of: {'const'} and/or the callees whose results it copies; None when a
+    definition is anything else.  (`match q() { Ok(m) => m.is_symlink(), Err(_) => false }` lowers to such a local.)"""
+    if depth > 4:
+        return None
+    out = set()
+    ds = [d for d in body.defs(local) if not d[4]]
+    if not ds:
+        return None
+    for d in ds:
+        if d[2] == "call":
+            out.add(body.call_at(d[0]).decl)
+            continue
+        if d[2] != "assign":
+            return None
+        rv = d[3]["rv"]
+        if rv["r"] == "use" and (rv["o"].get("k") or {}).get("ty") == "bool":
+            out.add("const")
+        elif rv["r"] == "use" and op_place(rv["o"]) is not None and not op_place(rv["o"])["p"]:
+            sub = flag_sources(body, op_place(rv["o"])["l"], depth + 1)
+            if sub is None:
+                return None
+            out |= sub
+        else:
+            return None
+    return out
+
+
 def sinks_of(body):
     out = []
     for c in body.calls():
@@ -184,6 +212,12 @@ def run(f, fixture, rep, cfg, tier):
                         else:
                             break
                     const_flag = bool(dsb) and all(d[2] == "assign" and d[3]["rv"]["r"] == "use" and (d[3]["rv"]["o"].get("k") or {}).get("ty") == "bool" for d in dsb)
+                    if not const_flag:
+                        fs_ = flag_sources(hb, dpl["l"])
+                        if fs_ is not None:
+                            # a flag that is a query's verdict on some paths and a constant on the others: the query is the gate
+                            const_flag = True
+                            srcs |= fs_ - {"const"}
                 if not const_flag:
                     srcs.add(info["kind"])
             bad = {x for x in srcs if not (re.search(NOFOLLOW_QUERIES, x) or x in ("std::fs::Metadata::file_type", "std::fs::FileType::is_symlink"))}
@@ -269,6 +303,10 @@ def run(f, fixture, rep, cfg, tier):
     rep.rule("R6", "the payload reader hands extract() each file's exact bytes (C07.R4)")
     rep.include("c07", f, fixture, cfg, tier, "R6", "payload reader accounting and read limit", only_rules={"R4"}, floor=3)
 
+    # ---- R7 mode and link target used by extract() are the header's: rests on the file-entry accessor (C05.R6) ----------------
+    rep.rule("R7", "extract() is given each file's stored mode and link target (C05.R6)")
+    rep.include("c05", f, fixture, cfg, tier, "R7", "file entries: path join, per-file columns, lossless conversions", only_rules={"R6"}, floor=8)
+
 
 def check_sanitiser(b, rep):
     tb = TermBuilder(b)
@@ -350,6 +388,13 @@ def check_sanitiser(b, rep):
                     desc = "symlink" if "symlink_metadata(" in t else ("not-last" if "peek(" in t else "extra:match on " + t[:60])
                 else:
                     desc = "extra:condition at line %s" % b.term(d).get("line")
+                    dpl_ = op_place(b.term(d)["d"])
+                    if dpl_ is not None and not dpl_["p"] and b.local_ty(dpl_["l"]) == "bool":
+                        fs_ = flag_sources(b, dpl_["l"])
+                        if fs_ is not None and fs_ - {"const"} and all(x.endswith("is_symlink") for x in fs_ - {"const"}):
+                            desc = "symlink"
+                        elif fs_ == {"const"}:
+                            desc = "flag"       # set in the arms of the real tests, which are examined on their own
                 rep.check(not desc.startswith("extra:"), "R2", "sanitiser|symlink-refusal|condition|%s" % desc.split(":")[0],
                           "the refusal depends on %s" % desc, "the symbolic-link refusal is additionally conditional on %s: some links among parent directories are let through" % desc[6:], b.span)
     for name in ("RootDir", "CurDir"):
